@@ -17,7 +17,7 @@ from harness import core, paramalg as pa, runfamily as rf
 
 LEVEL = "model_checking"
 
-ACTIONS = ["Grow", "Twin", "Build", "MCall", "MEq", "Clear", "MPickle", "Unpickle", "MCallCopy", "MClearCopy", "MSolve"]
+ACTIONS = ["Grow", "Twin", "Build", "MDeliver", "MCall", "MEq", "Clear", "MPickle", "Unpickle", "MCallCopy", "MClearCopy", "MSolve"]
 
 
 def neighbours(tree, prev):
@@ -71,6 +71,7 @@ def run(ctx):
                            (dict(pa.MECH, MPickleSlots=False), "PickleRoundTrip", 1),
                            (dict(pa.MECH, MCacheKeyTime=False), "EvalIsPointwise", 1),
                            (dict(pa.MECH, MReuseEqual=True), "EvalIsPointwise", 1),
+                           (dict(pa.MECH, MCacheKeyBuffer=True), "EvalIsPointwise", 1),
                            (dict(pa.MECH, MEqFlat=True), "EqIsStructural", 2)):
         sw = "/".join(k for k in mech if mech[k] != pa.MECH[k])
         cases.append((f"ParamAlg[{sw} as pinned/mutated, {inv}]", pa.model_cfg(lvl, 211, ctx.seed, mech, [inv]), inv))
@@ -113,6 +114,19 @@ def run(ctx):
     ctx.cov["expressions_enumerated"].update({"with_twins_under_equal_operands": ntwin, "same_flat_reading_pairs_compared": nflat})
     if ntwin < 15 or nflat < 50:
         raise core.MachineryFailure(f"C16: input dimensions vacuous: {ntwin} twinned expressions, {nflat} same-flat pairs")
+    # deliveries that put OTHER content into memory already delivered at the same time, on expressions with a caching
+    # (time-dependent, operand) leaf
+    nredeliver = 0
+    for tr in traces:
+        seen = {}
+        for e in tr["ev"]:
+            if e["ev"] == "deliver" and e["b"] != "tmp" and e["obs"]["k"] == "v" and e["fill"]:
+                if (e["b"], e["t"]) in seen and seen[(e["b"], e["t"])] != e["a"]:
+                    nredeliver += 1
+                seen.setdefault((e["b"], e["t"]), e["a"])
+    ctx.cov["deliveries_same_memory_other_content_same_time_on_caching_expressions"] = nredeliver
+    if nredeliver < (150 if quick else 5000):
+        raise core.MachineryFailure(f"C16: only {nredeliver} re-deliveries of the same memory with other content")
     if not any(e["ev"] == "call" and e["fill"] for tr in traces for e in tr["ev"]):
         raise core.MachineryFailure("C16: no call ever filled an operand cache — ClearCacheTotal would be vacuous")
 
@@ -163,7 +177,7 @@ def run(ctx):
 
     canary(mut_value, "value shifted by 1/64")
     canary(lambda n: pa.corrupt_flag(norm[n]), "time_dependent flag flipped")
-    ctx.cov["rule"] = ("one case = one expression tree enumerated by TLC, built with the real classes and exercised (==, 28 calls "
+    ctx.cov["rule"] = ("one case = one expression tree enumerated by TLC, built with the real classes and exercised (==, 12 array deliveries into re-used / viewed / temporary memory, 28 calls "
                        "over 4 argument forms x scalar/array arguments x times, _clear_cache, two pickle round trips with the copy "
                        "exercised) or handed to the real solver; non-trivial = at least one operator; distinct = distinct trees "
                        "(+ distinct trees handed to the solver)")
